@@ -70,6 +70,19 @@ def cases(tier, seed):
                 for st in styles[:2]:
                     ok("u%d-hex-%d-%s" % (n, v, st), ty, Lit(ty, v, text="0x" + decorate(h, rng, st)), notation="hex", style=st)
                 ok("u%d-hex-%d-upper" % (n, v), ty, Lit(ty, v, text="0x" + h.upper()), notation="hex", style="upper case")
+        # limb and digit-count boundaries: the boundary values of every narrower width, and for every decimal digit
+        # count d that fits, the largest d-digit number and a random d-digit number (plain notation only)
+        extra = set()
+        for m in (8, 16, 32, 64, 128):
+            if m < n:
+                extra |= {(1 << m) - 1, 1 << m, (1 << m) + 1}
+        for d in range(1, len(str(mx)) + 1):
+            top = min(mx, 10 ** d - 1)
+            extra |= {top, rng.randrange(10 ** (d - 1), top + 1)}
+        for v in sorted(extra - set(vals)):
+            ok("u%d-dec-%d-digits%d" % (n, v, len(str(v))), ty, Lit(ty, v, text=str(v)), notation="dec", style="digit-count / limb boundary")
+            if n >= 8:
+                ok("u%d-hex-%d-limb" % (n, v), ty, Lit(ty, v, text="0x" + format(v, "0%dx" % (n // 4))), notation="hex", style="digit-count / limb boundary")
         # ill-formed literals
         bad("u%d-dec-overflow" % n, ty, str(mx + 1))
         bad("u%d-dec-overflow2" % n, ty, str(mx + 2) + "_")
